@@ -355,7 +355,9 @@ func (w *World) Rules() []Rule {
 }
 
 func (w *World) Run(syms *SymbolTable) error {
-	done := make(chan error)
+	// buffered: when the deadline fires first nobody receives the result any more,
+	// and the evaluation goroutine must not block forever on its send
+	done := make(chan error, 1)
 	ctx, cancel := context.WithTimeout(context.Background(), w.runLimits.maxDuration)
 	defer cancel()
 
